@@ -5,7 +5,7 @@ from ..tmplcheck import family_results, report
 from ..values import BoolV
 
 FLOORS = {"C01.R1.frame-start": 100, "C01.R2.mnemonic-name": 100, "C01.R3.operand-unit": 50,
-          "C01.R3.operands-in-order": 100, "C01.R4.flag-loaded": 10, "C01.A2.sequence": 50}
+          "C01.R3.operands-in-order": 100, "C01.R4.flag-loaded": 10, "C01.A2.sequence": 50, "C01.R6.one-search-over-whole-stream": 8}
 
 
 def run(ctx) -> None:
@@ -27,6 +27,9 @@ def run(ctx) -> None:
     report(ctx, res, "C01", prefixes=("R1.", "R2.", "R3."), compile_tags=("seq", "hex"))
     # the implicit top-level $and and sequences at instruction level (R5)
     report(ctx, [r for r in res if r.rule == "A2.sequence" and r.role == "instr"], "C01", prefixes=("A2.",))
+    # R6: the verdict is taken over the whole listing: one search over the complete in-order stream
+    from ._matchrules import scan_rules
+    scan_rules(ctx, "C01.R6.one-search-over-whole-stream", "C01.R6.stream-is-whole-listing")
     # R4: YAML keys -> stored flags
     I = make_interp(ctx.p)
     for mn in (None, True, False):
